@@ -205,3 +205,9 @@ class Echo(Task):
     def execute(self):
         self.out.parent.mkdir(parents=True, exist_ok=True)
         self.out.write_text(json.dumps({"graph": abstract_instance(self.x), "n": self.n, "tags": dict(self.__tags__), "calls": len(CALLS)}))
+
+
+class R(Config):
+    """A required parameter that is outside the signature (not hashed): missing it must still be detected"""
+
+    q: Meta[int]
